@@ -183,9 +183,9 @@ def run(ctx):
     ctx.notes['table_tests'] = ntests
     # ---- entry block sets + channel blocks ----
     settable = {1: [(1, 66, 0), (1, 66, 1)], 2: [(1, 66, 0)], 3: [(1, 66, 40), (2, 79, 1000)], 4: [(1, 66, 1), (1, 66, 255), (1, 66, 0)],
-                5: [(1, 66, 255), (1, 66, 0)], 6: [(4, 68, 12.5), (1, 66, 3)], 7: [(4, 65, b'FEET')], 8: [(4, 68, 0.5), (4, 68, 60.0), (1, 66, 6)],
-                9: [(4, 65, b'FEET'), (4, 65, b'.1IN'), (4, 65, b'MS  ')], 11: [(1, 66, 16), (2, 79, 300)], 12: [(4, 68, -999.25), (4, 68, 0.0)],
-                13: [(1, 66, 1), (1, 66, 0)], 14: [(4, 65, b'FEET'), (4, 65, b'M   ')], 15: [(1, 66, 68), (1, 66, 73)], 16: [(1, 66, 0), (1, 66, 1)]}
+                5: [(1, 66, 255), (1, 66, 0)], 6: [(4, 68, 12.5), (1, 66, 3)], 7: [(4, 65, b'FEET'), (0, 65, None)], 8: [(4, 68, 0.5), (4, 68, 60.0), (1, 66, 6)],
+                9: [(4, 65, b'FEET'), (4, 65, b'.1IN'), (4, 65, b'MS  '), (0, 65, None)], 11: [(1, 66, 16), (2, 79, 300)], 12: [(4, 68, -999.25), (4, 68, 0.0), (0, 68, None)],          # (size 0: the block is there and explicitly blank)
+                13: [(1, 66, 1), (1, 66, 0)], 14: [(4, 65, b'FEET'), (4, 65, b'M   '), (0, 65, None)], 15: [(1, 66, 68), (1, 66, 73)], 16: [(1, 66, 0), (1, 66, 1)]}
     types = sorted(settable)
     subsets = []
     if ctx.quick:
